@@ -180,6 +180,13 @@ def scenarios():
         "h4/app/wire.go": INJ + ("package main\n\nimport (\n\ttwo \"example.com/l/h4/foo2\"\n\t\"%s\"\n)\n\n"
                                  "func initN() int {\n\tpanic(wire.Build(wire.Value(two.Forty)))\n}\n\nfunc initS() string {\n\tpanic(wire.Build(two.NewS, wire.Value(two.Forty)))\n}\n") % W,
     }, "./h4/app", "n 42 s", ["C14", "C01"])
+    # a pointer-typed field selected from a pointer to the struct: the consumer of **T gets the address of the field
+    add("H-pointer-to-a-pointer-typed-field", "H", {
+        "h6/app/main.go": ("package main\n\nimport \"fmt\"\n\ntype DB struct{ DSN string }\ntype Config struct{ P *DB }\ntype Svc struct {\n\tPP **DB\n\tP  *DB\n}\n\n"
+                           "func NewSvc(pp **DB, p *DB) *Svc { return &Svc{PP: pp, P: p} }\n\n"
+                           "func main() {\n\tcfg := &Config{P: &DB{DSN: \"a\"}}\n\ts := initSvc(cfg)\n\tfmt.Println(s.PP == &cfg.P, s.P == cfg.P, (*s.PP).DSN)\n}\n"),
+        "h6/app/wire.go": INJ + ("package main\n\nimport \"%s\"\n\nfunc initSvc(cfg *Config) *Svc {\n\tpanic(wire.Build(wire.FieldsOf(new(*Config), \"P\"), NewSvc))\n}\n") % W,
+    }, "./h6/app", "true true a", ["C12", "C02"])
     # variadic provider fed from a slice provider, variadic injector parameter consumed as a slice
     add("H-variadic-provider-and-injector", "H", {
         "h5/app/main.go": ("package main\n\nimport \"fmt\"\n\ntype Option string\ntype App struct {\n\tOpts []Option\n\tIDs  []string\n}\n\nfunc NewOptions() []Option { return []Option{\"a\", \"b\"} }\n"
